@@ -142,6 +142,19 @@ def sweep(roots, kind, fails, label, extra_names=()):
     return nodes, ok
 
 
+def plain_key_collisions(nodes):
+    """pairs of DIFFERENT (a, b) name pairs of linked nodes whose attribute names f"{a}_to_{b}" coincide"""
+    keys = {}
+    out = []
+    for u in nodes:
+        for v in u.neighbors:
+            k = f"{u.name}_to_{v.name}"
+            if k in keys and keys[k] != (u.name, v.name):
+                out.append([list(keys[k]), [u.name, v.name], k])
+            keys.setdefault(k, (u.name, v.name))
+    return out
+
+
 def resolvable(start_obj, a, b):
     """what convert_to does for one step: 'd' direct, 'r' reverse, None = would raise Unknown transformation"""
     if hasattr(start_obj, f"{a}_to_{b}"):
@@ -151,7 +164,7 @@ def resolvable(start_obj, a, b):
     return None
 
 
-def sweep_methods(nodes, owner_of, kind, fails, label, site_of=None):
+def sweep_methods(nodes, owner_of, kind, fails, label, site_of=None, confirm=None):
     """from every start object, every step of every route has a resolvable link method"""
     n = len(nodes)
     names = sorted({u.name for u in nodes})
@@ -167,6 +180,9 @@ def sweep_methods(nodes, owner_of, kind, fails, label, site_of=None):
             for i in range(len(p) - 1):
                 a, b = p[i].name, p[i + 1].name
                 if resolvable(start, a, b) is None and (a, b, type(start).__name__) not in bad:
+                    # `resolvable` forms the attribute name the way the code is known to; the verdict is the real call's
+                    if confirm is not None and not confirm(start, goal):
+                        continue
                     bad.add((a, b, type(start).__name__))
                     site = (site_of or {}).get(b) or (site_of or {}).get(a) or "builtin"
                     fails.append(dict(family=f"link-method-unresolvable:{site}",
@@ -521,8 +537,18 @@ def run_scenario(ops, opts=None):
             break   # never call the real path()/convert on a graph whose tables loop or break
         # 2. registry layer
         cobj = w.all_center_objects()
-        ok3 = sweep_methods(cnodes, lambda u: cobj.get(id(u)), "center", fails, label, w.site_of)
-        ok4 = sweep_methods(onodes, lambda u: u, "orient", fails, label, w.site_of)
+        def raises_unknown(call):
+            try:
+                call()
+            except ValueError as e:
+                return "Unknown transformation" in str(e)
+            except Exception:  # noqa: BLE001
+                return False
+            return False
+        ok3 = sweep_methods(cnodes, lambda u: cobj.get(id(u)), "center", fails, label, w.site_of,
+                            confirm=lambda st, goal: raises_unknown(lambda: st.convert_to(w.date, goal, omod.EME2000)))
+        ok4 = sweep_methods(onodes, lambda u: u, "orient", fails, label, w.site_of,
+                            confirm=lambda st, goal: raises_unknown(lambda: st.convert_to(w.date, goal)))
         counts["method_steps"] += len(cnodes) ** 2 + len(onodes) ** 2
         # 3. conversions (a target is designated by NAME: with several live nodes of one name the nearest one is meant, so
         # value-level checks are restricted to unambiguous names)
@@ -559,8 +585,12 @@ def run_scenario(ops, opts=None):
             if fresh and (i, j) in before:
                 counts["unchanged_compared"] += 1
                 if not np.array_equal(before[i, j], after[i, j], equal_nan=True):
-                    fails.append(dict(family="registration-changes-conversion", what="registering frames under new names changed a conversion between pre-existing frames",
-                                      detail={"after": label, "from": w.frames[i][0], "to": w.frames[j][0],
+                    coll = plain_key_collisions(cnodes) + plain_key_collisions(onodes)
+                    fails.append(dict(family="link-name-collision" if coll else "registration-changes-conversion",
+                                      what="registering frames under new names changed a conversion between pre-existing frames"
+                                      + (" (two different pairs of names form the same '<a>_to_<b>' attribute name)" if coll else ""),
+                                      detail={"after": label, "from": w.frames[i][0], "to": w.frames[j][0], "colliding": coll[:3],
+                                              "moved_m": float(np.abs(before[i, j][:3] - after[i, j][:3]).max()),
                                               "before": [float(v) for v in before[i, j]], "now": [float(v) for v in after[i, j]]}))
         before = after
         if len(fails) > 12:
@@ -682,7 +712,37 @@ def fixed_scenarios():
         {"op": "orbitframe", "name": "Lro2", "pv": lunar, "state_frame": 8, "parent": 8, "orientation": "TNW"},
         {"op": "station", "name": "EqSta", "lat": 3.0, "lon": 4.0, "alt": 0.0, "parent": 1, "equatorial": True},
     ]))
+    # two Lagrange frames of one system: the library itself creates two live LagrangeOrient nodes named 'SunEarthLagrange';
+    # then single-link attachments of new leaves (local orbital orientation, bare topocentric orientation, user orientation)
+    S.append(("lagrange-twins-then-leaves", [
+        {"op": "sol", "body": "Sun"}, {"op": "sol", "body": "Earth"},
+        {"op": "lagrange", "f1": 5, "f2": 6, "number": 1, "name": "SEL1", "sinodic": True},
+        {"op": "lagrange", "f1": 5, "f2": 6, "number": 2, "name": "SEL2", "sinodic": True},
+        {"op": "orbitframe", "name": "ProbeQsw", "pv": leo, "state_frame": 0, "parent": 0, "orientation": "QSW"},
+        {"op": "topo_direct", "name": "BareOnL2", "lat": 1.0, "lon": 2.0, "alt": 0.0, "parent": 8},
+        {"op": "userframe", "name": "FixedOnL1", "parent": 7, "center": 7, "depth": 1},
+        {"op": "orbitframe", "name": "ProbeTnw", "pv": leo, "state_frame": 7, "parent": 8, "orientation": "TNW"},
+    ]))
+    # free-text names: distinct names that differ by a non-word character only, spaces, dots, unicode, names that are prefixes /
+    # suffixes of each other; every one is a NEW name: conversions between the frames already there must not move
+    sites = [("Site-1", 43.6, 1.44), ("Site 1", 5.25, -52.8), ("Site.1", -25.9, 27.7), ("Site_1", 35.0, 139.0), ("Sit\u00e9 1", -33.0, 151.0),
+             ("Site", 10.0, 10.0), ("Site-1 bis", 60.0, 25.0), ("1-Site", -10.0, -60.0)]
+    S.append(("names-nonword", [{"op": "station", "name": nm, "lat": la, "lon": lo, "alt": 100.0, "parent": 1} for nm, la, lo in sites]
+              + [{"op": "orbitframe", "name": "Leo/1", "pv": leo, "state_frame": 0, "parent": 0, "orientation": None},
+                 {"op": "orbitframe", "name": "Leo 1", "pv": [x * 1.01 for x in leo], "state_frame": 0, "parent": 0, "orientation": "QSW"},
+                 {"op": "station", "name": "Leo-1", "lat": 1.0, "lon": 2.0, "alt": 0.0, "parent": 13}]))
     return S
+
+
+def to_names_scenario():
+    """names that contain the separator of the link-method names: 'S_to' below Earth and 'S' below a centre called 'to_Earth'
+    both store their offset under 'S_to_to_Earth' (known finding C20-link-name-collision; Props/C20LinkKey.lean collision_suffix)"""
+    leo = [7.0e6, 1.0e5, -2.0e5, 150.0, 7500.0, 200.0]
+    return ("names-with-to", [
+        {"op": "orbitframe", "name": "to_Earth", "pv": leo, "state_frame": 0, "parent": 0, "orientation": None},
+        {"op": "station", "name": "S_to", "lat": 43.6, "lon": 1.44, "alt": 100.0, "parent": 1},
+        {"op": "station", "name": "S", "lat": -20.0, "lon": 100.0, "alt": 0.0, "parent": 5},
+    ])
 
 
 def topo_direct_scenario():
@@ -703,6 +763,15 @@ def random_scenario(rng, length):
         if names and rng.random() < 0.25:
             return rng.choice(names)      # re-registration under an existing name
         nm = f"{tag}n{len(names)}"
+        if names and rng.random() < 0.45:
+            # a NEW name close to an existing one: differs by a non-word character, a space, a dot, a unicode letter, or is a
+            # prefix / suffix extension of it (never containing the separator '_to' of the link-method names)
+            base = rng.choice(names)
+            stem = re.sub(r"[^0-9A-Za-z]+", "", base)[:12]
+            cand = rng.choice([stem + "-1", stem + " 1", stem + ".1", stem + "_1", stem + "\u00e9", stem + "/", "x" + stem, stem + "x",
+                               stem[:-1] + "-" + stem[-1:], stem[:-1] + " " + stem[-1:], stem[:-1] + "_" + stem[-1:], stem + "\u03b1"])
+            if cand not in names and cand != base:
+                nm = cand
         names.append(nm)
         return nm
 
@@ -756,7 +825,7 @@ if __name__ == "__main__":
     if len(sys.argv) > 1:
         scen = [("cli", json.loads(sys.argv[1]))]
     else:
-        scen = fixed_scenarios() + [topo_direct_scenario()]
+        scen = fixed_scenarios() + [topo_direct_scenario(), to_names_scenario()]
     for nm, ops in scen:
         res = run_forked(ops)
         print(nm, json.dumps(res.get("counts")), res.get("error", ""), res.get("tb", ""))
@@ -897,7 +966,8 @@ class _RegWorld:
         lag = {names[i] for i in range(n) if self.world == "orient" and classes[i] == 3}
 
         def nstr(k):
-            return f"{tag}N{k}" + ("Lagrange" if k in lag else "")
+            # free-text names: four consecutive integers give names that differ by one non-word character only
+            return f"{tag}N{('', '-', '.', '~')[k % 4]}{k // 4}" + ("Lagrange" if k in lag else "")
         objs = [None] * n
         dummy_center = cmod.Center(f"{tag}DC")
         dummy_orient = omod.Orientation(f"{tag}DO")
